@@ -502,7 +502,7 @@ def c20(k, ctx):
     cli = k.build_cli()
     ctx.vh("gen", "i2s", timeout=3000, env={"VH_CLI": cli})
     recs, rej = ctx.validate("Trace_C20", timeout=3000)
-    ctx.require_events("Gen", "Construct", "Sys", "Encode", "Ber")
+    ctx.require_events("Gen", "Construct", "Sys", "Encode", "Ber", "Girth")
     for r in recs:
         ctx.nontrivial_keys.add(k.key(r["argv"]))
         r.pop("lib", None)
